@@ -8,20 +8,6 @@ import PyhamModel.Lemmas.Capstone
 import PyhamModel.Lemmas.CapstoneWF
 namespace Pyham
 
-mutual
-/-- number of lineages of the history `l` (rooted at taxon `q`) that cross the taxon `t` -/
-def lineagesAt (t : Taxon) : Taxon → SL → Nat
-  | _, .gene _ _ => 0
-  | q, .grp _ _ _ subs => (if q == t then 1 else 0) + lineagesAtSubs t q subs
-def lineagesAtSubs (t : Taxon) (q : Taxon) : List Sub → Nat
-  | [] => 0
-  | .one i l :: r => lineagesAt t (i :: q) l + lineagesAtSubs t q r
-  | .dup i _ cs :: r => lineagesAtCopies t (i :: q) cs + lineagesAtSubs t q r
-  | .ann _ :: r => lineagesAtSubs t q r
-def lineagesAtCopies (t : Taxon) (q : Taxon) : List SL → Nat
-  | [] => 0
-  | c :: cs => lineagesAt t q c + lineagesAtCopies t q cs
-end
 
 /-- number of HOGs at `t` in a forest -/
 def hogCountL (t : Taxon) (ks : List Node) : Nat := ((Node.hogsL ks).filter fun x => x.tx == t).length
